@@ -20,6 +20,8 @@ DERIVES = {'Clone', 'Debug', 'PartialEq', 'Eq', 'Hash', 'Default', 'Copy'}
 
 
 def run(ck):
+    if getattr(ck, 'depth', 0) >= 2:
+        return      # a shared run of a shared run: nothing of it is selected, and mutual sharing must end somewhere
     F = ck.facts
     L = F.lib
     ck.explanation = (
